@@ -284,11 +284,17 @@ def compare(W, o, st_cols, st_rows, pid=None):
                     defs['gstd'] = float(np.exp(np.sqrt(np.sum((lg - np.sum(lg) / n) ** 2) / n)))
                 for stat, want in defs.items():
                     for spelled in (j, NAMES[ch - 1]):
-                        got = float(getattr(FlowCal.stats, stat)(o, spelled))
+                        got = getattr(FlowCal.stats, stat)(o, spelled)
+                        if np.ndim(got) != 0:
+                            return [('stats', '%s of the single column %r is not a scalar (shape %r)' % (stat, spelled, np.shape(got)))]
+                        got = float(got)
                         if abs(got - want) > (1e-9 if stat in ('gmean', 'gstd') else 1e-12) * max(1.0, abs(want)):
                             return [('stats', '%s of column %r: %r, definition on the events present %r' % (stat, spelled, got, want))]
             allm = np.asarray(FlowCal.stats.mean(o), dtype=float)
-            per = np.array([float(FlowCal.stats.mean(o, j)) for j in range(len(st_cols))])
+            per = [FlowCal.stats.mean(o, j) for j in range(len(st_cols))]
+            if any(np.ndim(x) != 0 for x in per):
+                return [('stats', 'mean of a single column given by position is not a scalar')]
+            per = np.array([float(x) for x in per])
             if allm.shape != per.shape or not np.array_equal(allm, per):
                 return [('stats', 'mean of all channels %r differs from the per-channel answers %r' % (allm.tolist(), per.tolist()))]
             FlowCal.stats.gstd(o) if len(st_cols) and all(np.all(W.expected[(c, u)][[r - 1 for r in st_rows]] > 0) for c, u in st_cols) else None
